@@ -193,7 +193,8 @@ pub fn check(c: &Case, st: &mut Stats) -> CheckResult {
 
     if let (Some(pl), Some(&o)) = (c.panic_label, c.outputs.first()) {
         // a node blows up in the middle of a traversal; whatever the processor had collected must not leak into later calls
-        let out = live_v[o % live_v.len()];
+        // the aborted call renders another output than the calls that follow it (pl / 8 steps further on, possibly 0)
+        let out = live_v[(o + pl / 8) % live_v.len()];
         bomb.set(Some(live_v[pl % live_v.len()]));
         let r = vp_core::pan::catch(|| match (&mut p, &mut g) {
             (P::Plain(p), G::Plain(g)) => p.process(g, idx[&out]),
@@ -653,6 +654,26 @@ pub fn run(ctx: &mut Ctx) {
         );
     }
     ctx.prop("random-graphs", ctx.pick(20_000, 300_000), case_strategy(14), check);
+    // (b2) an aborted call on one component, then calls on another: two chains 0 -> .. -> a-1 and a -> .. -> n-1; the call on the end of the
+    // first chain blows up in one of its nodes, the following calls render the end of the second chain and then the first again
+    let mut cases = Vec::new();
+    for a in 1..=4usize {
+        for b in 1..=3usize {
+            let n = a + b;
+            let mut edges: Vec<(usize, usize)> = (1..a).map(|k| (k - 1, k)).collect();
+            edges.extend((a + 1..n).map(|k| (k - 1, k)));
+            for bomb_at in 0..a {
+                for stable in [false, true] {
+                    // first real output n-1; the aborted call's output a-1 = (n-1 + d) % n  =>  d = a; panic_label = 8 * d' + r with
+                    // (8*d'+r)/8 = d' = a and (8a + r) % n = bomb_at
+                    if let Some(r) = (0..8usize).find(|r| (8 * a + r) % n == bomb_at) {
+                        cases.push(Case { stable, n, edges: edges.clone(), removed: vec![], added: 0, late_edges: vec![], outputs: vec![n - 1, a - 1, n - 1], proc_capacity: 0, bufs: vec![], panic_label: Some(8 * a + r) });
+                    }
+                }
+            }
+        }
+    }
+    ctx.enumerate("aborted-call-then-another-component", true, cases.into_iter(), check);
     // (c) wide fan-in: far more incoming edges (parallel ones included) than nodes or than the processor's capacity hint
     ctx.require_class("in-degree above 16 and above the processor's capacity hint");
     let wide = (2usize..=40, 17usize..=80, 0usize..6, any::<bool>(), proptest::collection::vec(0usize..=3, 0..4)).prop_map(|(n, fan, proc_capacity, stable, bufs)| {
